@@ -268,7 +268,19 @@ func zero(t types.Type) value {
 
 // slice returns x[lo:hi:max].  Any of lo, hi and max may be nil.
 // Symbolic bounds fork: out of range -> runtime panic, in range -> one path per feasible value.
-func slice(x, lo, hi, max value) value {
+func slice(x, lo, hi, max value, instr *ssa.Slice) value {
+	var tlo, thi, tmax types.Type
+	if instr != nil {
+		if instr.Low != nil {
+			tlo = instr.Low.Type()
+		}
+		if instr.High != nil {
+			thi = instr.High.Type()
+		}
+		if instr.Max != nil {
+			tmax = instr.Max.Type()
+		}
+	}
 	var Len, Cap int
 	isStr := false
 	switch x := x.(type) {
@@ -292,26 +304,26 @@ func slice(x, lo, hi, max value) value {
 
 	m := int64(Cap)
 	if max != nil {
-		if !inRange(max, 0, int64(Cap)) {
+		if !inRangeT(max, 0, int64(Cap), tmax) {
 			oob()
 		}
-		m = concInt(max, "slice-max")
+		m = concIntT(max, tmax, "slice-max")
 	}
 	h := int64(Len)
 	if hi != nil {
-		if !inRange(hi, 0, m) {
+		if !inRangeT(hi, 0, m, thi) {
 			oob()
 		}
-		h = concInt(hi, "slice-hi")
+		h = concIntT(hi, thi, "slice-hi")
 	} else if isStr {
 		m = h
 	}
 	l := int64(0)
 	if lo != nil {
-		if !inRange(lo, 0, h) {
+		if !inRangeT(lo, 0, h, tlo) {
 			oob()
 		}
-		l = concInt(lo, "slice-lo")
+		l = concIntT(lo, tlo, "slice-lo")
 	}
 
 	switch x := x.(type) {
